@@ -264,6 +264,34 @@ def run(out: Outcome) -> None:
                     break
         out.case({"refit_without_reset": True, "window": w, "n1": len(ref1), "n2": len(ref2), "h": hash(tuple(stream)) & 0xFFFFFF})
     # references above 10 000 values: asymptotic branch, batch vs incremental
+    # window_size == len(reference) in the hundreds / thousands (scipy's equal-sizes branch of the exact distribution), and n * m beyond 10^6
+    for n, w in (((600, 600), (1100, 1100), (1500, 800)) if thorough else ((rng.choice([560, 700]), None), (1500, 800))):
+        w = w or n
+        ref = [rng.gauss(0, 1) for _ in range(n)]
+        stream = [rng.gauss(rng.choice([0.0, 0.05]), 1) for _ in range(w + 2)]
+        inc = IncrementalKSTest(window_size=w)
+        inc.fit(X=np.array(ref))
+        bat = KSTest()
+        bat.fit(X=np.array(ref))
+        rep = {"ref_size": n, "window": w, "kind": "equal / large sizes", "stream_seeded": True}
+        for t, v in enumerate(stream, 1):
+            try:
+                r, _ = inc.update(value=v)
+            except Exception as e:  # noqa: BLE001
+                out.violation(f"IncrementalKSTest.update raised {type(e).__name__}: {e} at update {t} (reference {n}, window {w})", rep)
+                break
+            if t < w:
+                continue
+            b, _ = bat.compare(X=np.array(stream[t - w: t]))
+            if r is None or abs(float(r.statistic) - float(b.statistic)) > 1e-12 or not (abs(float(r.p_value) - float(b.p_value)) <= 1e-9):
+                out.violation(f"IncrementalKSTest result {None if r is None else (float(r.statistic), float(r.p_value))} differs from the batch test "
+                              f"({float(b.statistic)!r}, {float(b.p_value)!r}) for reference {n}, window {w}", rep)
+                break
+            if t == w:
+                win = stream[t - w: t]
+                lines.append(f"ks {n} {w} " + " ".join(f2h(x) for x in ref + win))
+                expect.append(("KSTest/IncrementalKSTest", float(b.statistic), float(b.p_value), rep, False))
+        out.case({"equal_or_large_sizes": (n, w)})
     # a WINDOW above 10 000 values (small reference): the asymptotic branch as well, decided by max(n, w)
     for n, w in ((40, 10001),):
         ref = [rng.gauss(0, 1) for _ in range(n)]
